@@ -919,7 +919,12 @@ class IMAPClientCommand:
         if self._p_simple_string("(", silent=True, swallow=False):
             self.flag_list = self._p_paren_list_of(self._p_flag)
         else:
+            # store-att-flags = ... (flag-list / (flag *(SP flag))): without
+            # the parentheses there may be more than one flag as well.
+            #
             self.flag_list = [self._p_flag()]
+            while self._p_simple_string(" ", silent=True):
+                self.flag_list.append(self._p_flag())
 
     #######################################################################
     #
